@@ -42,6 +42,10 @@ fn owner_scripts() -> Vec<(&'static str, Vec<Op>)> {
         ("late-join-join", vec![Op::Sleep(2), Op::Join(o), Op::Join(o)]),
         ("late-consume_sync", vec![Op::Sleep(2), Op::ConsumeSync(o)]),
         ("join-then-consume", vec![Op::Join(o), Op::Consume(o)]),
+        // the join future outlives the owner: messages accepted before the owner went away are
+        // part of the final state
+        ("send-joinstart-drop-owner-await", vec![Op::Send(o, 901), Op::Send(o, 902), Op::JoinStart(o), Op::Drop(o), Op::JoinAwait(0)]),
+        ("joinstart-send-drop-owner-await", vec![Op::JoinStart(o), Op::Send(o, 903), Op::Call(o, 904), Op::Send(o, 905), Op::Drop(o), Op::JoinAwait(0)]),
         // two joins pending at the same time in two different tasks (the second future is handed
         // to a helper client, which awaits it; the stopper comes later): both resolve when the
         // actor terminates, one of them with the value
@@ -66,6 +70,25 @@ fn oracle(s: &ProgScene<X>, t: &Trace) -> Vec<Violation> {
                 key: format!("C17/owner-op-panicked/script={script:?}"),
                 detail: format!("client {} op {} {:?} panicked", o.c, o.i, op_at(o.c, o.i)),
             });
+        }
+    }
+    // "its final state - after its last handler": what the owner script got accepted (send
+    // returned Ok) before everything was let go is handled before the graceful end
+    // (only where nobody else stops the actor: a send that lands behind another client's stop
+    // request is accepted and, by C04, never handled)
+    let foreign_stop = s.clients.iter().skip(1).any(|c| c.ops.iter().any(|op| matches!(op, Op::Stop(_) | Op::Halt(_))));
+    if graceful && !foreign_stop && t.res.end == crate::vexec::EndReason::Quiescent {
+        for o in an.ops.iter().filter(|o| o.c == 0 && o.ok()) {
+            if let Some(Op::Send(_, id)) = op_at(o.c, o.i) {
+                crate::check::oblige("final-state-includes-accepted");
+                if an.exit_of_msg(0, *id).is_none() {
+                    out.push(Violation {
+                        clause: "final-state-includes-accepted",
+                        key: format!("C17/accepted-message-not-in-final-state/script={script}"),
+                        detail: format!("the owner's send of message {id} had returned Ok, the actor ended gracefully, but the message was never handled: the joined value is not the final state"),
+                    });
+                }
+            }
         }
     }
     // expected final state
@@ -249,7 +272,7 @@ fn make_case_slow(script: (&'static str, Vec<Op>), subs: &[Vec<L>], stopper: boo
 
 /// does the script terminate the actor by itself (consume / dropping the last handle)?
 fn self_terminating(name: &str) -> bool {
-    matches!(name, "consume" | "consume_sync" | "use-then-consume" | "detach-call" | "to_addr-drop-call" | "late-consume" | "late-consume_sync")
+    matches!(name, "consume" | "consume_sync" | "use-then-consume" | "detach-call" | "to_addr-drop-call" | "late-consume" | "late-consume_sync" | "send-joinstart-drop-owner-await" | "joinstart-send-drop-owner-await")
 }
 
 fn plain_cases(tier: Tier) -> Vec<Case> {
